@@ -1,20 +1,24 @@
-/* C18: secp256k1_ecdh - failure gates, scalar masking, hash plumbing.  Every pointer NULL-or-object, every
+/* C18: secp256k1_ecdh - failure cases, oracle usage, hash plumbing.  Every pointer NULL-or-object, every
  * byte content; hashfp = NULL (default), secp256k1_ecdh_hash_function_sha256, or a caller-supplied function
  * (stub with arbitrary result in {0,1}).
  * ASSUMED oracles with ghost logs: secp256k1_ecmult_const, secp256k1_ge_set_gej (assumed_C18.h).
- * SHA-256 object: stream contracts with write log (hash_log.h, proved in C05).
- * Real code: loading, scalar parsing/masking, fe_normalize, fe_get_b32, hash selection, return value.
- *
- * Obligations: scalar 0 or >= n => ret 0, and the multiplication still runs, on scalar 1 (masking); otherwise
- * it runs on the scalar; the point multiplied is the loaded public key; (x32, y32) handed to the hash are the
- * big-endian normalised affine coordinates of the result; default hash stream = (0x02 | odd(y)) || x32 from the
- * SHA-256 IV, 33 bytes, digest written to output; ret = (hash result != 0) && scalar valid.
- * Not observable from outside (so not claimed): clearing of the local x/y/scalar buffers. */
+ * SHA-256 object: STREAM-level contracts with write log (hash_log.h) - a hand-rolled final block would need the
+ * block-level idiom; not done here.
+ * Rule followed (audit 1): only what property C18 / include/secp256k1_ecdh.h promise.
+ *   - scalar 0 or >= n => ret 0 (nothing else is demanded on that path: no call counts, no dummy operand);
+ *   - an invalid pubkey object => illegal callback (nothing else: the header requires an initialised key);
+ *   - valid key and scalar: a constant-time multiplication of THAT point by THAT scalar is made, (x32, y32) handed
+ *     to the hash are the big-endian coordinates (mod p) of its affine result; hashfp gets output and data passed
+ *     through; default hash stream = (0x02 | odd(y)) || x32 from the SHA-256 IV, 33 bytes, digest written to
+ *     output; ret = (hash result != 0).
+ * Opaque pubkey decoded through the TU's own ge_from_bytes (spec.h views). */
 #include "assumed_C18.h"
 #include "hash_log.h"
 #include "../C04/spec.h"
 #include "src/secp256k1.c"
 #include "post.h"
+#define SPEC_VIEWS
+#include "../C04/spec.h"
 
 #define GEJ_EQ(a, b) (FE_EQ((a).x, (b).x) && FE_EQ((a).y, (b).y) && FE_EQ((a).z, (b).z) && (a).infinity == (b).infinity)
 
@@ -32,8 +36,8 @@ void h_ecdh(void) {
     secp256k1_context ctx;
     INPUT_ARR(unsigned char, out, 32); INPUT(secp256k1_pubkey, point); INPUT_ARR(unsigned char, scalar, 32);
     INPUT(_Bool, use_out); INPUT(_Bool, use_point); INPUT(_Bool, use_scalar); INPUT(unsigned char, mode); INPUT(int, we); INPUT(uint64_t, wpos); INPUT(size_t, k);
-    int ret, bad, user_data; secp256k1_ecdh_hash_function fp;
-    sp sv = sp_be32(scalar), xv = sp_le32(point.data), yv = sp_le32(point.data + 32), qx, qy;
+    int ret, bad, inv, user_data; secp256k1_ecdh_hash_function fp;
+    sp sv = sp_be32(scalar), xv, yv, qx, qy;
     verif_ctx_init(&ctx);
     ctx.hash_ctx.fn_sha256_compression = secp256k1_sha256_transform;
     HASHLOG_RESET(); g_we = we; g_wpos = wpos;
@@ -41,42 +45,47 @@ void h_ecdh(void) {
     __CPROVER_assume(mode <= 2 && k < 32);
     fp = mode == 0 ? NULL : (mode == 1 ? stub_hashfp : secp256k1_ecdh_hash_function_sha256);
     bad = sp_is0(sv) || !sp_lt(sv, sp_n());
+    view_pk64(point.data, &xv, &yv, &inv);
     ret = secp256k1_ecdh(&ctx, use_out ? out : NULL, use_point ? &point : NULL, use_scalar ? scalar : NULL, fp, &user_data);
     __CPROVER_assert(g_error == 0, "C18 ecdh: error callback never invoked");
     __CPROVER_assert(ret == 0 || ret == 1, "C18 ecdh: returns 0 or 1");
-    if (!use_out || !use_point || !use_scalar) __CPROVER_assert(ret == 0 && g_illegal == 1 && g_ecc_n == 0 && g_st_n == 0 && g_fin_n == 0, "C18 ecdh: NULL argument is illegal, returns 0, nothing computed");
+    if (!use_out || !use_point || !use_scalar) __CPROVER_assert(ret == 0 && g_illegal == 1, "C18 ecdh: NULL argument is illegal and returns 0");
+    else if (inv) __CPROVER_assert(g_illegal >= 1, "C18 ecdh: an invalid pubkey object is reported through the illegal callback");
     else {
+        __CPROVER_assert(g_illegal == 0, "C18 ecdh: no illegal callback for a valid pubkey object");
         if (bad) __CPROVER_assert(ret == 0, "C18 ecdh: scalar 0 or >= n returns 0");
-        __CPROVER_assert(g_ecc_n == 1 && g_sg_n == 1, "C18 ecdh: exactly one multiplication and one conversion on every path (valid scalar or not)");
-        __CPROVER_assert(sp_eq(sval(&g_ecc_q0), bad ? sp_u64(1) : sv), "C18 ecdh: the multiplication runs on the scalar, or on 1 when the scalar is invalid (masking)");
-        __CPROVER_assert((g_illegal == 0) == !sp_is0(xv), "C18 ecdh: illegal callback exactly for an invalid pubkey object");
-        if (!sp_is0(xv)) __CPROVER_assert(sp_eq(fval(&g_ecc_a0.x), xv) && sp_eq(fval(&g_ecc_a0.y), yv) && !g_ecc_a0.infinity, "C18 ecdh: the point multiplied is the public key as stored");
-        __CPROVER_assert(GEJ_EQ(g_sg_a0, g_ecc_r0), "C18 ecdh: the point converted is the multiplication result");
-        qx = sp_modp(fval(&g_sg_r0.x)); qy = sp_modp(fval(&g_sg_r0.y));
-        if (mode == 1) {
-            __CPROVER_assert(g_st_n == 1 && g_fin_n == 0, "C18 ecdh: a caller-supplied hash function is called exactly once, no built-in hashing");
-            __CPROVER_assert(g_st_out == (const void *)out && g_st_data == (const void *)&user_data, "C18 ecdh: hashfp receives the output buffer and the data pointer unchanged");
-            __CPROVER_assert(sp_eq(sp_be32(g_st_x), qx) && sp_eq(sp_be32(g_st_y), qy), "C18 ecdh: x32, y32 handed to hashfp are the big-endian normalised coordinates of the result");
-            __CPROVER_assert(ret == (g_st_ret && !bad), "C18 ecdh: returns 1 exactly when hashfp returned non-zero and the scalar is valid");
-            if (ret == 1) REACH("ecdh custom hash success");
-            if (!bad && ret == 0) REACH("ecdh hashfp returned 0");
-        } else {
-            __CPROVER_assert(g_st_n == 0 && g_fin_n == 1, "C18 ecdh: default hash: exactly one SHA-256 computation");
-            __CPROVER_assert(ret == !bad, "C18 ecdh: default hash: returns 1 exactly for 0 < scalar < n");
-            if (g_we == 0) {
-                __CPROVER_assert(g_w_started && g_w_b0 == 0 && g_w_s0 == 0x6a09e667ul && g_w_s7 == 0x5be0cd19ul, "C18 ecdh: default hash starts from the SHA-256 initial state");
-                __CPROVER_assert(g_w_fin && g_w_end == 33, "C18 ecdh: default hash absorbs exactly 33 bytes");
-                if (g_wpos < 33) {
-                    __CPROVER_assert(g_w_hit, "C18 ecdh: every stream position is written");
-                    if (g_wpos == 0) __CPROVER_assert(g_w_byte == (0x02 | sp_odd(qy)), "C18 ecdh: default hash: first byte is 0x02 | odd(y)");
-                    else __CPROVER_assert(W(g_w_byte) == ((qx >> (8 * (32 - (unsigned)g_wpos))) & W(0xff)), "C18 ecdh: default hash: bytes 1..32 are the big-endian normalised x coordinate");
+        else {
+            __CPROVER_assert(g_ecc_n >= 1 && sp_eq(sval(&g_ecc_q0), sv), "C18 ecdh: the constant-time multiplication runs on the scalar");
+            __CPROVER_assert(sp_eq(sp_modp8(fval(&g_ecc_a0.x)), xv) && sp_eq(sp_modp8(fval(&g_ecc_a0.y)), yv) && !g_ecc_a0.infinity, "C18 ecdh: the point multiplied is the public key");
+            __CPROVER_assert(g_sg_n >= 1 && GEJ_EQ(g_sg_a0, g_ecc_r0), "C18 ecdh: the point converted is the multiplication result");
+            qx = sp_modp(fval(&g_sg_r0.x)); qy = sp_modp(fval(&g_sg_r0.y));
+            if (mode == 1) {
+                __CPROVER_assert(g_st_n >= 1 && g_fin_n == 0, "C18 ecdh: a caller-supplied hash function is called, no built-in hashing");
+                __CPROVER_assert(g_st_out == (const void *)out && g_st_data == (const void *)&user_data, "C18 ecdh: hashfp receives the output buffer and the data pointer (passed through, as the header says)");
+                __CPROVER_assert(sp_eq(sp_be32(g_st_x), qx) && sp_eq(sp_be32(g_st_y), qy), "C18 ecdh: x32, y32 handed to hashfp are the big-endian coordinates (mod p) of the result");
+                __CPROVER_assert(ret == (g_st_ret != 0), "C18 ecdh: with a valid scalar, returns 1 exactly when hashfp returned non-zero");
+                if (ret == 1) REACH("ecdh custom hash success");
+                if (ret == 0) REACH("ecdh hashfp returned 0");
+            } else {
+                __CPROVER_assert(g_st_n == 0 && g_fin_n >= 1, "C18 ecdh: default hash: a SHA-256 computation, not the caller stub");
+                __CPROVER_assert(ret == 1, "C18 ecdh: default hash: returns 1 for 0 < scalar < n");
+                if (g_we == 0) {
+                    __CPROVER_assert(g_w_started && g_w_b0 == 0 && g_w_s0 == 0x6a09e667ul && g_w_s7 == 0x5be0cd19ul, "C18 ecdh: default hash starts from the SHA-256 initial state");
+                    __CPROVER_assert(g_w_fin && g_w_end == 33, "C18 ecdh: default hash absorbs exactly 33 bytes");
+                    if (g_wpos < 33) {
+                        __CPROVER_assert(g_w_hit, "C18 ecdh: every stream position is written");
+                        if (g_wpos == 0) __CPROVER_assert(g_w_byte == (0x02 | sp_odd(qy)), "C18 ecdh: default hash: first byte is 0x02 | odd(y)");
+                        else __CPROVER_assert(W(g_w_byte) == ((qx >> (8 * (32 - (unsigned)g_wpos))) & W(0xff)), "C18 ecdh: default hash: bytes 1..32 are the big-endian x coordinate (mod p)");
+                    }
+                    __CPROVER_assert(out[k] == g_w_dig[k], "C18 ecdh: output is the digest");
                 }
-                __CPROVER_assert(out[k] == g_w_dig[k], "C18 ecdh: output is the digest");
+                if (mode == 0) REACH("ecdh default hash success");
+                if (mode == 2) REACH("ecdh explicit sha256 function success");
             }
-            if (ret == 1 && mode == 0) REACH("ecdh default hash success");
-            if (ret == 1 && mode == 2) REACH("ecdh explicit sha256 function success");
         }
         if (bad && sp_is0(sv)) REACH("ecdh zero scalar");
         if (bad && sp_eq(sv, sp_n())) REACH("ecdh scalar == n");
     }
+    if (use_out && use_point && use_scalar && inv) REACH("ecdh invalid pubkey object");
+    if (!use_out || !use_point || !use_scalar) REACH("ecdh NULL argument");
 }
